@@ -395,7 +395,8 @@ def gen_cell(rng, f, keydom):
     if f["dt"] == ":integer":
         return str(rng.choice([0, 1, 2, 3, -1, 10, 7]))
     if f["dt"] == ":date":
-        return rng.choice(["1-jan-2020", "15-feb-2021 10:20:30", "2019-12-31", "notadate"])
+        return rng.choice(["1-jan-2020", "15-feb-2021 10:20:30", "2019-12-31", "31-feb-2020", "1-jan-2020",
+                           "2019-12-31", "notadate"])
     s = rng.choice(STRS)
     return s if s != "" else None
 
@@ -699,8 +700,31 @@ def enumerated_cases():
         for skeleton in (False, True):
             for gz in (False, True):
                 yield {"kind": "refresh", "dst": mk(items), "schema": alt, "gzip": gz, "skeleton": skeleton}
+    # shapes kept from the seeded-change rounds: non-empty item-phenomenon / item-set (adjacent in TSDB_CORE_FILES)
+    # in default (core only) and skeleton copies; a filter on a column of a relation that sorts before the copied
+    # one while the child rows are not stored in parent order
+    sch2 = [{"name": "item", "fields": item},
+            {"name": "item-phenomenon", "fields": BASE["item-phenomenon"]},
+            {"name": "item-set", "fields": BASE["item-set"]},
+            {"name": "parse", "fields": parse}, {"name": "result", "fields": result}]
+    src2 = {"schema": sch2, "files": [
+        {"name": "item", "tx": gen_file([["1", "a", "1", "1"], ["2", "b c", "0", "2"], ["3", "d", "1", "1"]], 1), "gz": None},
+        {"name": "item-phenomenon", "tx": gen_file([["7", "2", "1", "me"], ["8", "1", "1", None]], 1), "gz": None},
+        {"name": "item-set", "tx": gen_file([["3", "1", "1"], ["1", "1", None], ["2", "2", "-1"]], 1), "gz": None},
+        {"name": "parse", "tx": gen_file([["30", "3", "1"], ["10", "1", "2"], ["20", "2", "0"], ["11", "1", "1"]], 1), "gz": None},
+        {"name": "result", "tx": gen_file([["20", "0", "z"], ["10", "1", "n"], ["30", "0", "m"], ["10", "0", "m"]], 1),
+         "gz": None}]}
+    for cond in (None, ["cmp", "==", "i-wf", 1], ["cmp", "~", "i-input", "a|d"], ["cmp", ">", "item.i-id", 1],
+                 ["cmp", ">=", "readings", 1]):
+        for full in (False, True):
+            for skeleton in (False, True):
+                for gz in (False, True):
+                    yield {"kind": "db", "src": src2, "dst": None, "schema": None,
+                           "where": None if cond is None else {"cond": cond}, "full": full, "gzip": gz,
+                           "skeleton": skeleton}
     sch_l = [{"name": "item", "fields": item}, {"name": "parse", "fields": parse}]
-    for lines in ([], ["the dog barks"], ["*dog the barks", "it  rains\t", "", "*"]):
+    for lines in ([], ["the dog barks"], ["*dog the barks", "it  rains\t", "", "*"],
+                  ["**two stars", "*** three", "* *", "**"]):
         for skeleton in (False, True):
             for gz in (False, True):
                 yield {"kind": "lines", "schema": sch_l, "delim": None, "lines": [cps(l) for l in lines],
@@ -845,8 +869,45 @@ def filt_params(case):
     return out
 
 
+def cond_json(c):
+    """the condition tree for the composed model (literals as {"int"} / {"str": cps})"""
+    if c[0] == "cmp":
+        lit = c[3]
+        return ["cmp", c[1], c[2], {"int": lit} if isinstance(lit, int) else {"str": cps(lit)}]
+    if c[0] == "not":
+        return ["not", cond_json(c[1])]
+    return [c[0], [cond_json(x) for x in c[1]]]
+
+
+def rx_table(case):
+    """`re.search` as a table: every pattern of the filter against every stored string (parameter of C11)"""
+    pats = set()
+
+    def walk(c):
+        if c[0] == "cmp":
+            if c[1] in ("~", "!~") and isinstance(c[3], str):
+                pats.add(c[3])
+        elif c[0] == "not":
+            walk(c[1])
+        else:
+            for x in c[1]:
+                walk(x)
+    walk(case["where"]["cond"])
+    vals = set()
+    for f in case["src"]["files"]:
+        for form in ("tx", "gz"):
+            if f.get(form):
+                for row in f[form]["rows"]:
+                    for c in row:
+                        if c is not None:
+                            vals.add(uncps(c))
+    return [{"p": cps(p_), "s": cps(v), "m": re.search(p_, v) is not None} for p_ in sorted(pats) for v in sorted(vals)]
+
+
 class C12(Check):
     pid = "C12"
+    paths = {}
+    props_modules = ["Verif.C12.Props", "Verif.C12.ComposeProps"]
     quick_cases = 2500
     thorough_cases = 30000
     rule = ("source profiles over tree-linked schemas drawn from 14 relations (item/parse/result/run/tree/edge, the "
@@ -858,10 +919,12 @@ class C12(Check):
             "(with '*', Unicode blanks) and delimited (@, tab, |, multi-character) with header. A case is "
             "non-trivial if some relation it touches has rows / some line is given; distinct by JSON text.")
     assumptions = [
-        "TSQL row evaluation is a parameter of the model: the harness's nested-loop evaluator (natural join on shared "
-        "key names by cast value) reports per table whether the filter's columns resolve, which relations they "
-        "belong to, and per source row the number of satisfying joined tuples; whether a join plan exists "
-        "(pivot relations, reachability over shared key names => the all-rows fallback) is computed by the model",
+        "db and refresh cases are answered by the COMPOSED model (lean/Verif/C12/Compose.lean): the filter is C11's "
+        "`select` on the source profile, files/records are C09's and C08's; only `re.search` is a parameter (a "
+        "table of pattern x stored string, as in C11). The harness's nested-loop evaluator is the oracle only; it is "
+        "a model parameter (resolution, relations of the filter, per-row counts) solely in the fallback for cases "
+        "outside the islands' models (malformed filter text, a date spelling C08 does not model): see "
+        "coverage.model_paths in the evidence",
         "schemas are key-consistent (a column that is a key in one relation is a key wherever it occurs); relation "
         "and column names are TSQL identifiers without keyword prefixes and without '.'",
         "source files are written with well-formed escapes; integer key/condition columns hold int() spellings",
@@ -957,6 +1020,7 @@ class C12(Check):
     def setup(self):
         self.root = tempfile.mkdtemp(prefix="c12-", dir="/var/tmp")
         self.n = 0
+        self.paths = {}
 
     def teardown(self):
         shutil.rmtree(getattr(self, "root", ""), ignore_errors=True)
@@ -1042,6 +1106,13 @@ class C12(Check):
     def model_request(self, case):
         req = {"op": case["kind"], "watch": watch_names(case), "dst": case.get("dst"),
                "schema": case.get("schema"), "gzip": case["gzip"], "skeleton": case["skeleton"]}
+        # the composed model (C11 select + C09 files) answers db and refresh cases; the `sel` parameter below
+        # is only used by the driver's fallback when a case is outside what C08/C09/C11 model
+        where = case.get("where")
+        req["composed"] = case["kind"] in ("db", "refresh") and not (where and "text" in where)
+        if case["kind"] == "db" and where and "cond" in where:
+            req["cond"] = cond_json(where["cond"])
+            req["rx"] = rx_table(case)
         if case["kind"] == "db":
             req["src"] = case["src"]
             req["full"] = case["full"]
@@ -1058,9 +1129,19 @@ class C12(Check):
         return req
 
     def model_compare(self, case, expected, answer):
+        if isinstance(answer, dict):
+            answer = dict(answer)
+            path = answer.pop("path", "param")
+            key = "model path:%s:%s" % (case["kind"], path)
+            self.paths[key] = self.paths.get(key, 0) + 1
+            if case["kind"] == "db" and case.get("where") and path == "composed":
+                self.paths["model path:db with filter:composed"] = self.paths.get("model path:db with filter:composed", 0) + 1
         if isinstance(answer, dict) and answer.get("res") == "unmodelled":
             return None
         return super().model_compare(case, expected, answer)
+
+    def extra_evidence(self):
+        return {"model_paths": dict(self.paths)}
 
     # ---- direct oracle
     def oracle(self, case, res):
